@@ -51,17 +51,17 @@ func freshIter(prev delivSigma) delivSigma {
 
 type deliveryRule struct {
 	BaseRule
-	R      *BusRoles
-	ev     *busEvents
-	c      *Ctx
-	header *ssa.BasicBlock // dispatch loop header in PublishFn
-	loops  *loopInfo
-	hCanon string // canonical registration of the current iteration (set lazily)
+	R          *BusRoles
+	ev         *busEvents
+	c          *Ctx
+	header     *ssa.BasicBlock // dispatch loop header in PublishFn
+	loops      *loopInfo
+	hCanon     string // canonical registration of the current iteration (set lazily)
 	eventCanon string // canonical published event
 	ctxCanons  []string
 	// statistics / site inventory
 	invSites, claimSites, pollSites, filterSites, dispatchSites, spawnSites map[token.Pos]bool
-	sawRegistryWriteAfterLoop                                              bool
+	sawRegistryWriteAfterLoop                                               bool
 }
 
 func (r *deliveryRule) Inline(fn *ssa.Function) bool {
@@ -543,6 +543,7 @@ func (r *deliveryRule) OnExit(e *Engine, st *State, kind ExitKind) {
 // ruleOf maps a construct to the rule id it belongs to.
 func runDelivery(c *Ctx, p *Prog, R *BusRoles, ruleOf func(construct string) string, want map[string]string) {
 	e := NewEngine(p)
+	e.StepOver = true
 	rn := R.RegName()
 	for _, f := range []string{R.RegOnce, R.RegAsync, R.RegSeq, R.RegFilter, R.RegHandler, R.RegHandlerType} {
 		e.Immutable[rn+"."+f] = true
